@@ -272,7 +272,10 @@ def leaf_paths(sol, prefix=()):
     out = []
     for st in sol.structures:
         child = st.solver if getattr(st, "solver", None) is not None else st.model
-        level = ([(n, o) for n, o in st.param_mapping.items()], dict(child.default_params))
+        cd = dict(child.default_params)
+        if getattr(st, "solver", None) is not None:
+            cd = {k: v for k, v in cd.items() if v is not None}      # placeholder defaults of a solver are not values
+        level = ([(n, o) for n, o in st.param_mapping.items()], cd)
         if getattr(st, "solver", None) is not None:
             out += leaf_paths(child, prefix + (level,))
         else:
@@ -285,7 +288,8 @@ def check_descend(ctx, sol, explicit, got, replay):
     hierarchy: the dictionary the model predicts at the bottom of every path of placements vs the phases the probe there shows"""
     def enc(v):
         return "None" if v is None else repr(float(v))
-    top_defaults = [[k, enc(v)] for k, v in sol.default_params.items()]
+    # a solver default of None is the placeholder for "no default": Solver.update_params does not forward it
+    top_defaults = [[k, enc(v)] for k, v in sol.default_params.items() if v is not None]
     args = [[k, enc(v)] for k, v in explicit.items()]
     for probe, path in leaf_paths(sol):
         q = {"op": "descend", "defaults": top_defaults, "args": args,
